@@ -1,5 +1,7 @@
 (* C18 -- ChunkedReadFile: exact file bytes and stable, change-sensitive validators. *)
-From HS Require Import Lib.Base Lib.Bytes Lib.Hex Model.File Proofs.FileP.
+From HS Require Import Lib.Base Lib.Bytes Lib.Dec Lib.Hex Model.Range Model.Etag Model.Body Model.Serve Model.File
+  Spec.RangeGrammar Spec.Validators Spec.Multipart Spec.Response
+  Proofs.BodyP Proofs.BodyRun Proofs.EchoP Proofs.ServeP Proofs.DecisionP Proofs.MultipartP Proofs.EndToEnd Proofs.FileP Proofs.FileServe Proofs.FileEndToEnd.
 
 (* For any file content, any range within the length, and any short-read behaviour of pread: while
    the file is not truncated below the range end the stream yields exactly the range's bytes in
@@ -34,8 +36,48 @@ Theorem c18_new : forall m, (f_is_file m = false -> crf_new m = None) /\
   (f_is_file m = true -> exists e, crf_new m = Some e /\ crf_len e = f_len m /\ crf_last_modified e = f_mtime_ns m).
 Proof. exact crf_new_spec. Qed.
 
+(* ... served through `serve` with Range headers. Seen as an entity stream (the events of
+   Model/Body.v), the file stream for a range is honest -- exactly the range's bytes, no failure --
+   while the file is not shorter than the range's end, whatever short reads pread makes; once the
+   file is truncated below it the stream carries a failure (which the body turns into an error, C07). *)
+Theorem c18_stream_is_honest : forall content flen short a e, a <= e -> (forall k, e <= flen k) ->
+  stream_bytes (file_events content flen short a e) = content_range content a e /\
+  existsb ev_is_err (file_events content flen short a e) = false.
+Proof. exact file_stream_honest. Qed.
+Theorem c18_truncated_stream_fails : forall content flen short a e, a < e -> truncated_from flen 0 e ->
+  existsb ev_is_err (file_events content flen short a e) = true.
+Proof. exact file_stream_truncated. Qed.
+
+(* Hence for every grammatical GET -- any Range, conditional headers and If-Range -- on an entity
+   backed by a file of content `content` that stays at least L bytes long: the status is the
+   specified one and the body, however it is chunked and polled, never errs, is at every moment a
+   prefix of the specified bytes (the file's bytes for 200 / single-range 206, the multipart wire
+   format of the file's ranges) and equals them at the clean end. *)
+Theorem c18_through_serve : forall fmt_date parse_date content now (et : option tag) ent req im inm ims ius rast streams,
+  e_len ent < U64 -> e_etag ent = option_map render_tag et -> r_meth req = GET ->
+  wf_conds parse_date req im inm ims ius -> range_rel (e_len ent) (r_range req) rast ->
+  let L := e_len ent in
+  let in_force := match r_if_range req with
+                  | None => true
+                  | Some ifr => match e_etag ent with Some e => beq_bytes ifr e && starts_with DQ e | None => false end
+                  end in
+  let eh := match r_if_range req with Some _ => [] | None => e_hdrs ent end in
+  let o := spec_outcome content et (option_map (fun m => m / NS) (e_lm ent)) im inm ims ius
+                        (if in_force then rast else None) L eh in
+  (forall i a e, nth_error (spec_reads L o) i = Some (a, e) ->
+     exists flen short, (forall k, L <= flen k) /\ stream_of streams i = file_events content flen short a e) ->
+  exists r, serve_model fmt_date parse_date now ent req = Ok r /\ status r = spec_status o /\
+    forall n rs_ bf, run n streams (fst (body_init streams (rplan r))) = Ok (rs_, bf) ->
+      existsb is_perr rs_ = false /\
+      forall body, spec_body content L eh o = Some body ->
+        (exists rest, data_bytes rs_ ++ rest = body) /\ (existsb is_pend rs_ = true -> data_bytes rs_ = body).
+Proof. exact file_through_serve. Qed.
+
 Print Assumptions c18_bytes.
 Print Assumptions c18_truncate.
 Print Assumptions c18_etag_injective.
 Print Assumptions c18_etag_strong.
 Print Assumptions c18_new.
+Print Assumptions c18_stream_is_honest.
+Print Assumptions c18_truncated_stream_fails.
+Print Assumptions c18_through_serve.
